@@ -39,6 +39,81 @@ EXTRA_WRITERS = {"cellX_": {"DetailedPlacer::runShiftsOnCells": "write-back of t
                  "cellOrientation_": {}, "cellY_": {}}
 
 
+def check_export_before_callback(ctx, rep, rid, classes):
+    """Every invocation of the user's placement callback (operator() on the std::function held in an optional) inside the given
+    placer classes is dominated, in its function, by a call that exports the current placement to the circuit (a function named
+    exportPlacement): the state a callback observes is the state the placer has reached."""
+    prog = ctx.prog
+    n = 0
+    for f in prog.all_funcs(with_lambdas=False):
+        if f.body is None or f.cls not in classes:
+            continue
+        g = cfg_of(f)
+        user = [x for x in walk(f.body) if x.get("kind") == "CXXOperatorCallExpr" and callee_info(x)["name"] == "operator()" and
+                "PlacementStep" in " ".join(qt(a) for a in callee_info(x)["args"])]
+        if not user:
+            continue
+        exps = [x for x in walk(f.body) if x.get("kind") in ("CXXMemberCallExpr", "CallExpr") and callee_info(x)["name"] == "exportPlacement"]
+        for u in user:
+            n += 1
+            un = g.node_for(u)
+            if exps and any(g.dominates(g.node_for(e), un) and g.node_for(e) is not un for e in exps if g.node_for(e) is not None):
+                rep.holds(rid, u, f, "%s: the placement is exported before the user callback runs" % f.short)
+            else:
+                rep.violation(rid, u, f, "%s: user callback runs before / without exporting the current placement" % f.short,
+                              "the callback would observe the circuit as it was before this step", key="%s|no export before callback" % f.short)
+    if n == 0:
+        rep.unknown(rid, None, None, "user callback invocations", "none found in %s (shape changed)" % ", ".join(short(c) for c in classes))
+
+
+def check_region_capacity(ctx, rep):
+    """RW. In RowReordering::runRegionChoice the recursive evaluation of a candidate region is edge-dominated by the capacity test
+    allocatedWidth(i) <= regions_[i].width() (or its mirrored / negated form), and the candidate cell has been pushed into the
+    region's list *before* that test is evaluated - otherwise the test speaks about the region without the cell."""
+    prog = ctx.prog
+    f = prog.func1(CQ + "RowReordering::runRegionChoice")
+    g = cfg_of(f)
+    recs = [x for x in walk(f.body) if x.get("kind") == "CXXMemberCallExpr" and callee_info(x)["qname"] == f.qname]
+    if not recs:
+        rep.unknown("RW", f.decl, f, "region choice", "recursive evaluation not found (shape changed)")
+        return
+    pushes = [x for x in walk(f.body) if x.get("kind") == "CXXMemberCallExpr" and callee_info(x)["name"] in ("push_back", "emplace_back")
+              and callee_info(x)["obj"] is not None and canon(callee_info(x)["obj"])[0] == "index" and canon(callee_info(x)["obj"])[1][0] == "field"]
+    for x in recs:
+        n = g.node_for(x)
+        verdict = None
+        for ast, val, en in g.dom_edges(n):
+            if not isinstance(val, bool):
+                continue
+            c = expand_locals(ctx, f, canon(ast))
+            if c[0] != "bin" or c[1] not in ("<=", "<", ">", ">="):
+                continue
+            sides = (c[2], c[3])
+            aw = [t for t in sides if t[0] == "call" and str(t[1]).endswith("RowReordering::allocatedWidth")]
+            rw = [t for t in sides if any(u[0] == "call" and str(u[1]).endswith("::width") for u in subterms(t))]
+            if not aw or not rw:
+                continue
+            used_le_cap = (c[2] is aw[0] and ((c[1] == "<=" and val is True) or (c[1] == ">" and val is False))) or \
+                          (c[3] is aw[0] and ((c[1] == ">=" and val is True) or (c[1] == "<" and val is False)))
+            cn = g.node_for(ast)
+            region_idx = aw[0][3] if len(aw[0]) > 3 else None
+            pushed_before = any(g.dominates(g.node_for(p), cn) and g.node_for(p) is not cn and
+                                (region_idx is None or canon(callee_info(p)["obj"])[2] == region_idx) for p in pushes if g.node_for(p) is not None and cn is not None)
+            if used_le_cap and pushed_before:
+                verdict = ("holds", "allocatedWidth(region) <= width(region) tested after the candidate was pushed into the region")
+            elif used_le_cap:
+                verdict = verdict or ("bad", "the capacity test is evaluated before the candidate is added to the region: it admits a region that the candidate overfills")
+            else:
+                verdict = verdict or ("bad", "the dominating capacity test is %s [%s]: it does not establish allocatedWidth <= width" % (pretty(c)[:70], val))
+        if verdict is None:
+            rep.violation("RW", x, f, "candidate region evaluated without a capacity test", "no dominating comparison of allocatedWidth(i) with the region's width",
+                          key="RowReordering::runRegionChoice|no capacity test")
+        elif verdict[0] == "holds":
+            rep.holds("RW", x, f, "candidate region evaluated only when it has room", verdict[1])
+        else:
+            rep.violation("RW", x, f, "capacity test of the candidate region", verdict[1], key="RowReordering::runRegionChoice|capacity test before the push")
+
+
 def _decl_type(fn, vid):
     d = fn.unit.by_id.get(vid)
     return qt(d) if d is not None else ""
@@ -54,6 +129,8 @@ def run(ctx, rep, tier):
     rep.rule("SH", "single-row classification is an exact equality of placed height and row height", 2)
     rep.rule("QF", "detailed-placement model built from placed geometry only", 2)
     rep.rule("SO", "no fixed cell in the obstacle lists of the builders", 2)
+    rep.rule("SC", "a position found in the sorted copy of the rows never subscripts the unsorted original", 1)
+    rep.rule("RW", "reordering: region capacity tested with the candidate included", 1)
     rep.rule("SA", "admission predicates honour row polarity", 5)
     # ---- W2 ----
     for fld in LIST_FIELDS:
@@ -143,6 +220,13 @@ def run(ctx, rep, tier):
             rep.violation("G4", x, ctor, "cell admitted to a row list without all checks",
                           "not-ignored: %s, row found: %s, bound checks: %d/3" % (ign, first, bounds), key="DetailedPlacement::DetailedPlacement|row admission")
         ctor = ctor_
+    # ---- SC: positions found in the sorted copy of the rows are not used on the unsorted argument
+    from .common import check_sorted_copy_index
+    nsc = check_sorted_copy_index(ctx, rep, "SC", [f_ for f_ in prog.funcs.values() if f_.cls in (CQ + "DetailedPlacement", CQ + "LegalizerBase")])
+    if nsc == 0:
+        rep.unknown("SC", None, None, "sorted copies of the row list", "none found in DetailedPlacement / LegalizerBase (shape changed)")
+    # ---- RW: the capacity of a reordering region is tested with the candidate already in it
+    check_region_capacity(ctx, rep)
     # ---- MV ----
     for q, cal, val_q in (("DetailedPlacer::doSwap", "valueOnSwap", CQ + "DetailedPlacer::valueOnSwap"),
                           ("DetailedPlacer::doInsert", "valueOnInsert", CQ + "DetailedPlacer::valueOnInsert")):
@@ -162,16 +246,7 @@ def run(ctx, rep, tier):
             else:
                 rep.violation("MV", x, f, "%s in %s" % (q.split("::")[-1], f.short), why, key="%s|move without feasibility witness" % f.short)
     # ---- R1 ----
-    cb = prog.func1(CQ + "DetailedPlacer::callback")
-    g = cfg_of(cb)
-    exps = calls_to(cb, CQ + "DetailedPlacer::exportPlacement")
-    user = [x for x in walk(cb.body) if x.get("kind") == "CXXOperatorCallExpr" and callee_info(x)["name"] == "operator()"]
-    if not user:
-        rep.unknown("R1", cb.decl, cb, "callback", "user callback invocation not found")
-    elif exps and all(any(g.dominates(g.node_for(e), g.node_for(u)) and g.node_for(e) is not g.node_for(u) for e in exps) for u in user):
-        rep.holds("R1", user[0], cb, "exportPlacement(circuit_) dominates the user callback")
-    else:
-        rep.violation("R1", user[0], cb, "user callback runs before / without exporting the current placement", "", key="DetailedPlacer::callback|no export before callback")
+    check_export_before_callback(ctx, rep, "R1", (CQ + "DetailedPlacer",))
     # ---- R1b: the exported state is complete ----
     from .common import for_loop_info, loop_has_early_exit
     for f in prog.funcs.values():
